@@ -3,8 +3,6 @@
 assertion-label prefixes that belong to the property (DESIGN.md appendix B)."""
 import json
 
-R4 = 'FCPL'
-
 def step(roles, typ, tier=''):
     return [f'vpH_step{tier}_{r}_{typ}' for r in roles]
 
@@ -16,51 +14,194 @@ def H(names, labels, **kw):
         out.append(d)
     return out
 
-# ---- cell groups (quick bounds) ----
-VOTE_Q = step('FCPL', 'MsgVote') + step('FCPL', 'MsgPreVote')
-VRESP_Q = step('CP', 'MsgVoteResp') + step('CP', 'MsgPreVoteResp') + step('F', 'MsgVoteResp')
-HUP_Q = step('FCP', 'MsgHup') + step('FCP', 'MsgTimeoutNow')
-HB_Q = step('FCP', 'MsgHeartbeat')
-APP_Q = step('F', 'MsgApp')
-SNAP_Q = step('F', 'MsgSnap')
-PROP_Q = step('FCPL', 'MsgProp')
-LEAD_Q = step('L', 'MsgHeartbeatResp') + step('L', 'MsgBeat') + step('L', 'MsgCheckQuorum') + step('L', 'MsgSnapStatus') + step('L', 'MsgUnreachable') + step('L', 'MsgTransferLeader') + step('L', 'MsgReadIndex')
-LEAD_ACK_Q = step('L', 'MsgAppResp')
-SMALL_Q = step('F', 'MsgAppResp') + step('C', 'MsgAppResp') + step('F', 'MsgHeartbeatResp') + step('F', 'MsgBeat') + step('F', 'MsgCheckQuorum') + step('F', 'MsgTransferLeader') + step('F', 'MsgReadIndex') + step('F', 'MsgReadIndexResp') + step('FL', 'MsgForgetLeader')
-READ_Q = ['vpH_read_L_MsgReadIndex', 'vpH_read_L_MsgHeartbeatResp']
-READ_SINGLETON = ['vpH_read_L_MsgReadIndex_singleton']
-RAW_Q = ['vpH_raw_Ready_sync_F', 'vpH_raw_Ready_sync_L', 'vpH_raw_Ready_async_F', 'vpH_raw_Ready_async_L']
-RAW_ADV_Q = ['vpH_raw_ReadyAdvance_F', 'vpH_raw_ReadyAdvance_L']
-RESTART_Q = ['vpH_raw_Restart_2']
-ACK_Q = ['vpH_ack_ApplyResp_L', 'vpH_ack_ApplyResp_F', 'vpH_ack_AppendResp_F', 'vpH_ack_AppendResp_L']
-TICK_Q = ['vpH_tick_CheckQuorum_inactive_et2', 'vpH_tick_CheckQuorum_singleton', 'vpH_tick_Election_F', 'vpH_tick_TransferAbort_et2']
-LOG_Q = ['vpH_log_storageAppend_2_2', 'vpH_log_storageCompact_2', 'vpH_log_storageSnapshots_2', 'vpH_log_storageQueries_2', 'vpH_log_queries_1_1', 'vpH_log_unstableOps_1_2', 'vpH_log_maybeAppend_1_1_2']
-
-ALL_Q = VOTE_Q + VRESP_Q + HUP_Q + HB_Q + APP_Q + SNAP_Q + PROP_Q + LEAD_Q + SMALL_Q
-
-# ---- thorough ----
 def T(names):
     return [n.replace('vpH_step_', 'vpH_stepT_') for n in names]
 
+# ---- cell groups ----
+VOTE = step('FCPL', 'MsgVote') + step('FCPL', 'MsgPreVote')
+VRESP = step('CP', 'MsgVoteResp') + step('CP', 'MsgPreVoteResp') + step('FL', 'MsgVoteResp') + step('FL', 'MsgPreVoteResp')
+HUP = step('FCPL', 'MsgHup') + step('FCPL', 'MsgTimeoutNow')
+HB = step('FCPL', 'MsgHeartbeat')
+APP = step('FCP', 'MsgApp')
+APP_L = step('L', 'MsgApp')
+SNAP = step('FCP', 'MsgSnap')
+SNAP_L = step('L', 'MsgSnap')
+PROP = step('FCPL', 'MsgProp')
+LEAD = step('L', 'MsgBeat') + step('L', 'MsgCheckQuorum') + step('L', 'MsgSnapStatus') + step('L', 'MsgUnreachable') + step('L', 'MsgTransferLeader') + step('L', 'MsgReadIndex')
+LEAD_HBR = step('L', 'MsgHeartbeatResp')
+LEAD_ACK = step('L', 'MsgAppResp')
+SMALL = step('FC', 'MsgAppResp') + step('F', 'MsgHeartbeatResp') + step('F', 'MsgBeat') + step('F', 'MsgCheckQuorum') + step('F', 'MsgTransferLeader') + step('F', 'MsgReadIndex') + step('F', 'MsgReadIndexResp') + step('FL', 'MsgForgetLeader')
+READ = ['vpH_read_L_MsgReadIndex', 'vpH_read_L_MsgHeartbeatResp']
+READ_J = ['vpH_read_L_MsgHeartbeatResp_joint']
+READ_SINGLETON = ['vpH_read_L_MsgReadIndex_singleton']
+RAW = ['vpH_raw_Ready_sync_F', 'vpH_raw_Ready_sync_C', 'vpH_raw_Ready_sync_L', 'vpH_raw_Ready_async_F', 'vpH_raw_Ready_async_C', 'vpH_raw_Ready_async_L']
+RAW_ADV = ['vpH_raw_ReadyAdvance_F', 'vpH_raw_ReadyAdvance_C', 'vpH_raw_ReadyAdvance_L']
+RESTART = ['vpH_raw_Restart_2']
+ELECTION = ['vpH_raw_Election_sync', 'vpH_raw_Election_async']
+ACK = ['vpH_ack_ApplyResp_L', 'vpH_ack_ApplyResp_F', 'vpH_ack_ApplyResp_L_gone', 'vpH_ack_AppendResp_F', 'vpH_ack_AppendResp_L', 'vpH_ack_AppendResp_C']
+TICK = ['vpH_tick_CheckQuorum_et2', 'vpH_tick_CheckQuorum_inactive_et2', 'vpH_tick_CheckQuorum_singleton', 'vpH_tick_Election_F', 'vpH_tick_Election_C', 'vpH_tick_Election_P', 'vpH_tick_TransferAbort_et2']
+LOG = ['vpH_log_storageAppend_2_2', 'vpH_log_storageCompact_2', 'vpH_log_storageSnapshots_2', 'vpH_log_storageQueries_2', 'vpH_log_queries_1_1', 'vpH_log_unstableOps_1_2', 'vpH_log_maybeAppend_1_1_2']
+LOG_T = ['vpH_log_storageAppend_3_3', 'vpH_log_storageCompact_3', 'vpH_log_storageSnapshots_2', 'vpH_log_storageQueries_3', 'vpH_log_queries_2_2', 'vpH_log_unstableOps_2_2', 'vpH_log_maybeAppend_2_2_2']
+CONF = ['vpH_conf_Propose_2', 'vpH_conf_Propose_2_joint', 'vpH_conf_Apply_L', 'vpH_conf_Apply_F']
+SIZE = ['vpH_size_L_MsgHeartbeatResp', 'vpH_size_L_MsgProp', 'vpH_size_L_MsgAppResp']
+TRACK = ['vpH_t_InflightsAdd_3', 'vpH_t_InflightsFree_3', 'vpH_t_InflightsMisc_3', 'vpH_t_ProgressOps']
+TRACK_T = ['vpH_t_InflightsAdd_4', 'vpH_t_InflightsFree_4', 'vpH_t_InflightsMisc_4', 'vpH_t_ProgressOps']
+DET = ['vpH_det_F_MsgVote', 'vpH_det_F_MsgApp', 'vpH_det_F_MsgHup', 'vpH_det_C_MsgVoteResp', 'vpH_det_P_MsgPreVoteResp', 'vpH_det_L_MsgHeartbeatResp', 'vpH_det_L_MsgProp', 'vpH_det_L_MsgBeat', 'vpH_det_L_MsgCheckQuorum', 'vpH_det_L_MsgReadIndex']
+DET_T = DET + ['vpH_det_F_MsgSnap', 'vpH_det_L_MsgAppResp']
+
+ALL_STEP = VOTE + VRESP + HUP + HB + APP + SNAP + PROP + LEAD + LEAD_HBR + SMALL
+
 specs = {}
 
-def prop(pid, level, quick, thorough, bounds, assumptions, explanation, qbudget=1500, tbudget=14000):
+COMMON = [
+    "pre-state: any node state satisfying the representation invariant Inv (DESIGN 3.1); the same harnesses show Inv is preserved by every step (labels Inv/post@...)",
+    "inputs: V-term, V-self, V-app, V-hb, V-snap, V-ack, V-local of DESIGN 3.2 where a cell needs them for Inv/no-panic; safety effects are asserted without them",
+    "indexes and terms <= 2^40, byte sizes <= 2^40 (no wrap-around at the top of uint64); node ids 1..3 (4) concrete in configurations, message sender id symbolic",
+    "the composition of single-node step obligations into the cluster-wide statement is the standard Raft argument and is not machine-checked (DESIGN 3.4)",
+]
+BQ = ("quick: storage entries <= 1, unstable entries <= 1 (<= 2 in Ready/ack cells), compaction index a concrete choice of {0, 7} with every other index, term, size symbolic, message entries <= 2, "
+      "configuration: three voters unless the cell lists other shapes (joint {1,2,3}&&{1,2}, joint with LearnersNext, learner peer, self learner, self removed, singleton, two voters), "
+      "leader cells: one peer with fully symbolic Progress and <= 1 in-flight message, the other a caught-up replica; size limits symbolic only in the size cells. ")
+BT = ("thorough: storage/unstable entries <= 2/2, compaction index fully symbolic, shapes {simple, joint, learner, joint+LearnersNext}, both peers fully symbolic with <= 2 in-flight messages, symbolic size limits in every cell. ")
+OUT = "Outside: longer logs, more than 3 (4) node ids, more than one call per harness except where a harness name says otherwise (Ready->Advance, ticks, election), node.go, formatting."
+
+def prop(pid, quick, thorough, bounds, explanation, level="model_checking", assumptions=None, qbudget=1700, tbudget=20000):
     specs[pid] = {
         "level": level,
         "quick": {"budget_s": qbudget, "harnesses": quick},
         "thorough": {"budget_s": tbudget, "timeout_ms": 120000, "harnesses": thorough},
         "bounds_text": bounds,
-        "assumptions": assumptions,
+        "assumptions": (assumptions if assumptions is not None else COMMON),
         "explanation": explanation,
     }
 
-COMMON_ASSUME = [
-    "pre-state: any node state satisfying the representation invariant Inv (DESIGN 3.1), which the same harnesses show to be preserved by every step (label Inv/post)",
-    "messages: V-term, V-self, V-app, V-hb, V-snap, V-ack of DESIGN 3.2 where the cell needs them for Inv/no-panic; safety effects are asserted without them",
-    "indexes, terms <= 2^40, byte sizes <= 2^40 (no wrap-around); node ids 1..3 concrete in configurations, message sender id symbolic",
-    "the composition of the single-node step obligations into the cluster-wide statement is the standard Raft argument and is not machine-checked (DESIGN 3.4)",
-]
-STEP_BOUNDS_Q = "quick: storage entries <= 1, unstable entries <= 1 (<= 2 in Ready cells), message entries <= 2, configuration shape fixed to three voters unless the cell lists others (joint {1,2,3}&&{1,2}, learner, self-removed, singleton), leader cells: one peer with fully symbolic Progress and <= 1 in-flight message, the other a caught-up replica; size limits symbolic only in the size cells. thorough: storage/unstable <= 2/2, shapes {simple, joint, learner, joint+LearnersNext}, both peers symbolic, <= 2 in-flight."
+# ---------------- C12, C13: decided directly ----------------
+C12L = ["C12/"]
+prop("C12",
+     H(['vpH_q_MajCommit_5', 'vpH_q_MajCommit_sub4'], C12L, policies=[0, 1]) + H(['vpH_q_MajVote_5', 'vpH_q_MajVote_sub4'], C12L, policies=[0, 2]) + H(['vpH_q_JointCommit_3', 'vpH_q_JointVote_3'], C12L),
+     H(['vpH_q_MajCommit_9', 'vpH_q_MajCommit_sub4', 'vpH_q_MajVote_9', 'vpH_q_MajVote_sub4'], C12L, policies=[0, 1, 2]) + H(['vpH_q_JointCommit_4', 'vpH_q_JointVote_4'], C12L, policies=[0, 1]) + H(['vpH_t_TrackerCommitted_3', 'vpH_t_QuorumActive_3'], ["Q1/", "K4/"]),
+     "quick: single majority of size 0..5 (members 1..k) and arbitrary subsets of {1..4}, joint configs over arbitrary subsets of {1..3}; thorough: single majority of size 0..9 (crosses the >7 heap-allocation path), joint over subsets of {1..4}, ProgressTracker.Committed/QuorumActive over {1..3}. Acknowledged indexes: presence per id chosen, values unconstrained 64-bit; votes: presence chosen, value symbolic. Outside: n>9, Describe/String.",
+     "CommittedIndex/VoteResult of MajorityConfig and JointConfig are executed symbolically from go/ssa and compared, on every path, with a specification formula (largest index acknowledged by a strict majority, missing=0, empty=MaxUint64, joint=min; Won/Lost/Pending by yes and yes+missing counts per half).",
+     assumptions=["slices.Sort on []uint64 is modelled as an odd-even transposition network of unsigned compare-exchange terms (validated against the real library by native replay of sampled paths)"])
 
-# C12 / C13 keep their own lists
-specs["C12"] = json.load(open('/verif/specs/checks.json')).get("C12") if False else None
+C13L = ["C13/"]
+prop("C13",
+     H(['vpH_c_Simple_k1', 'vpH_c_EnterJoint_k1', 'vpH_c_Simple_k2u2', 'vpH_c_EnterJoint_k2u2', 'vpH_c_LeaveJoint', 'vpH_c_RoundTrip'], C13L),
+     H(['vpH_c_Simple_k1', 'vpH_c_EnterJoint_k1', 'vpH_c_Simple_k2u3', 'vpH_c_EnterJoint_k2u3', 'vpH_c_Simple_k3u2', 'vpH_c_EnterJoint_k3u2', 'vpH_c_LeaveJoint', 'vpH_c_RoundTrip'], C13L, policies=[0, 1]),
+     "pre-states: every configuration over ids 1..3 satisfying the C13 invariants (six member classes per id: absent, incoming, incoming+outgoing, outgoing only, learner, outgoing+LearnersNext) plus the empty configuration; changes: quick one change on all pre-states, two changes on non-joint pre-states over ids 1..2; thorough two changes over ids 1..3 and three over ids 1..2; change type all four legal values and one illegal, NodeId in {0, members, one fresh id, one arbitrary symbolic id}; Progress values symbolic. Outside: more than 3 ids, more than 3 changes.",
+     "Changer.Simple/EnterJoint/LeaveJoint and Restore are executed symbolically and compared with an abstract class-per-id model; on every path the result satisfies the configuration invariants, errors occur exactly in the specified cases, the input tracker is untouched, and ConfState->Restore reproduces the configuration.",
+     assumptions=["proto.Clone/proto.Equal/slices.Sort used by ConfState.Equivalent are engine intrinsics (DESIGN 2.6), validated by native replay"])
+
+# ---------------- step-obligation properties ----------------
+prop("C07",
+     H(VOTE + VRESP + HUP + HB + APP[:1] + SNAP[:1] + PROP + LEAD + SMALL, ["H1/", "H2/"]) + H(RAW[:1] + RAW[2:4], ["H3/"]) + H(RESTART, ["H4/"]) + H(CONF[2:], ["H1/"]),
+     H(T(ALL_STEP + LEAD_ACK + APP_L + SNAP_L), ["H1/", "H2/"]) + H(RAW, ["H3/"]) + H(['vpH_raw_Restart_3'], ["H4/"]) + H(ACK + CONF[2:], ["H1/", "H2/"]),
+     BQ + BT + OUT,
+     "H1: term and commit never decrease and the vote changes at most once per term, on every (role x message type) cell; H2: every emitted message carries the current term (grants echo the request term, pre-vote requests Term+1), never one below a term already exposed; H3: Ready exposes the HardState iff it changed and remembers it; H4: restart restores (term, vote, commit) from storage.")
+
+prop("C02",
+     H(VOTE, ["E2/", "E4/", "E5/", "H1/vote"]) + H(VRESP, ["E3/", "E4/", "E5/", "H1/vote"]) + H(HUP, ["E3/", "E4/", "E5/"]) + H(RESTART, ["E7/", "H4/"]) + H(ELECTION, ["E6/"]),
+     H(T(VOTE + VRESP + HUP + HB[:3] + APP[:1]), ["E2/", "E3/", "E4/", "E5/", "H1/vote"]) + H(['vpH_raw_Restart_3'], ["E7/", "H4/"]) + H(ELECTION, ["E6/"]),
+     BQ + BT + "Election harness: follower campaigns, Ready is taken, two arbitrary vote responses are stepped before the storage write completes (sync and async). " + OUT,
+     "E2 grant rule (one vote per term, only to up-to-date logs, not while following a leader), E3 a node becomes leader only as a candidate by a MsgVoteResp of its own term that completes a joint-majority of granted votes, E4 provenance of tallied votes, E5 the self vote travels through the after-append queue, E6 leading only with a durable term, E7 restart as follower.")
+
+prop("C17",
+     H(VOTE, ["K1/", "K3/"]) + H(VRESP + HUP, ["K2/"]) + H(step('L', 'MsgCheckQuorum') + step('L', 'MsgHeartbeatResp')[:0], ["K4/"]) + H(TICK[1:3], ["K5/"]),
+     H(T(VOTE), ["K1/", "K3/"]) + H(T(VRESP + HUP), ["K2/"]) + H(T(step('L', 'MsgCheckQuorum') + LEAD_HBR + LEAD_ACK), ["K4/"]) + H(TICK[:3] + ['vpH_tick_CheckQuorum_et3', 'vpH_tick_CheckQuorum_et2_joint'], ["K5/"]),
+     BQ + BT + "Tick harnesses: ElectionTick 2 (3), HeartbeatTick 1, 2*ET ticks without incoming messages. " + OUT,
+     "K1 a pre-vote request changes nothing but the reply, K2 with PreVote the term rises for a campaign only after a pre-vote quorum or on a leader-initiated transfer, K3 the leader lease, K4 CheckQuorum steps down iff no joint-majority was recently active, K5 a silent leader steps down within two election timeouts.")
+
+prop("C03",
+     H(APP, ["M1/", "M5/"]) + H(LEAD + LEAD_HBR + PROP[3:], ["M2/", "M3/"]) + H(['vpH_log_maybeAppend_1_1_2'], ["M1/"]) + H(ACK[3:5], ["M4/"]),
+     H(T(APP + APP_L), ["M1/", "M5/"]) + H(T(LEAD + LEAD_HBR + LEAD_ACK + PROP[3:]), ["M2/", "M3/"]) + H(['vpH_log_maybeAppend_2_2_2'], ["M1/"]) + H(ACK[3:], ["M4/"]),
+     BQ + BT + OUT,
+     "M1 follower append (slice present afterwards, entries before the first conflict kept, truncation only at a conflict), M2 every MsgApp carries consecutive log entries anchored at a log position, M3 a leader never changes its own log except by appending entries of its term, M4 storage acknowledgements never change the logical log, M5 rejection hints.")
+
+prop("C06",
+     H(LEAD + LEAD_HBR + CONF[2:3], ["Q1/", "Q2/", "Q4/"]) + H(APP[:1] + HB, ["Q3/", "Q4/", "Q5/"]) + H(['vpH_t_TrackerCommitted_3'], ["Q1/"]),
+     H(T(LEAD + LEAD_HBR + LEAD_ACK), ["Q1/", "Q2/", "Q4/"]) + H(CONF[2:3], ["Q1/"]) + H(T(APP + HB), ["Q3/", "Q4/", "Q5/"]) + H(['vpH_t_TrackerCommitted_3', 'vpH_log_maybeAppend_2_2_2'], ["Q1/", "Q5/"]),
+     BQ + BT + OUT,
+     "Q1 the leader's commit index only advances to an own-term entry matched by a joint majority, Q2 Match rises only through a non-reject MsgAppResp of the current term from that peer, Q3 acknowledgements are truthful, Q4 heartbeats carry min(Match, commit), Q5 follower commit = max(old, min(leader commit, end of slice)); Q6 commit <= last index is part of Inv.")
+
+prop("C04",
+     H(VOTE[:4], ["E2/"]) + H(VRESP[:1], ["E3/", "N1/"]) + H(LEAD + APP[:1] + SNAP[:1] + HB[:1], ["N2/", "Q1/"]),
+     H(T(VOTE), ["E2/"]) + H(T(VRESP), ["E3/", "N1/"]) + H(T(LEAD + LEAD_ACK + LEAD_HBR + APP + SNAP + HB), ["N2/", "Q1/"]),
+     BQ + BT + OUT,
+     "Local premises of leader completeness: E2 votes only to up-to-date logs, E3 election quorum, Q1 only own-term entries are committed by counting, N1 a new leader keeps its log and appends one empty entry, N2 the committed prefix is immutable on every node.")
+
+prop("C01",
+     H(APP[:1] + SNAP[:1] + HB[:1] + LEAD, ["N2/", "M1/", "M3/", "Q1/", "Q3/", "S1/"]) + H(VOTE[:1] + VRESP[:1], ["E2/", "E3/"]) + H(RAW[:1] + RAW[3:4], ["A1/", "A2/", "D2/", "D3/"]),
+     H(T(APP + SNAP + HB + LEAD + LEAD_ACK), ["N2/", "M1/", "M3/", "Q1/", "Q3/", "S1/"]) + H(T(VOTE + VRESP), ["E2/", "E3/"]) + H(RAW + RAW_ADV, ["A1/", "A2/", "D2/", "D3/"]),
+     BQ + BT + OUT,
+     "No obligation of its own: a selection of the step obligations the state-machine-safety argument rests on (committed prefix immutable, the apply stream is the contiguous committed log, follower append, leader append-only, quorum-backed commit, truthful acknowledgements, vote rule, election quorum, snapshot install). The cluster-wide statement is their composition and is not mechanised.")
+
+prop("C05",
+     H(APP[:1] + VOTE[:1] + SNAP[:1] + PROP[3:] + HUP[:1] + VRESP[:1], ["D1/"]) + H(RAW[:1] + RAW[2:3], ["D2/", "W5/"]) + H(RAW[3:4] + RAW[5:6], ["D3/"]) + H(RAW_ADV[:1] + RAW_ADV[2:], ["D2/", "D4/", "W5/"]) + H(RESTART, ["H4/", "A4/"]),
+     H(T(ALL_STEP + LEAD_ACK), ["D1/"]) + H(RAW, ["D2/", "D3/", "W5/"]) + H(RAW_ADV, ["D2/", "D4/", "W5/"]) + H(['vpH_raw_Restart_3'], ["H4/", "A4/"]),
+     BQ + BT + "Ready cells: <= 1 pending ordinary message, <= 2 pending promises (self-addressed or not), optional read state; the synchronous cells persist the Ready with the real MemoryStorage and compare storage with the logical log. Crash points: batch boundaries only (DESIGN C05-D5). " + OUT,
+     "D1 promises (MsgAppResp, MsgVoteResp, MsgPreVoteResp) and self-addressed messages are only ever queued behind persistence, D2 a synchronous Ready carries everything unstable and, once persisted, storage covers the whole logical log and the HardState behind every promise, D3 an asynchronous Ready releases promises only as Responses of the MsgStorageAppend, D4 the leader's own Match rises only through its persisted self-acknowledgement.")
+
+prop("C08",
+     H(RAW[:1] + RAW[2:4] + RAW[5:6], ["A1/", "A2/", "A3/"]) + H(RAW_ADV[:1] + RAW_ADV[2:], ["A2/"]) + H(ACK[:2], ["A5/", "A2/"]) + H(RESTART, ["A4/"]) + H(APP[:1] + SNAP[:1] + LEAD[:1], ["A2/"]),
+     H(RAW, ["A1/", "A2/", "A3/"]) + H(RAW_ADV, ["A2/"]) + H(ACK[:3], ["A5/", "A2/"]) + H(['vpH_raw_Restart_3'], ["A4/"]) + H(T(ALL_STEP), ["A2/"]),
+     BQ + BT + OUT,
+     "A1 Ready hands out exactly the contiguous committed entries after `applying` (maximal prefix within the size quota, only stable entries in async mode), A2 applied/applying never move back and consecutive batches abut, A3 nothing is handed out while a snapshot is pending, A4 restart resumes right after Config.Applied, A5 apply acknowledgements.")
+
+prop("C09",
+     H(SNAP, ["S1/"]) + H(LEAD[:1] + LEAD_HBR + step('L', 'MsgSnapStatus'), ["S3/", "S4/", "L4/no-append"]) + H(RAW[:1], ["S2/"]) + H(ACK[3:4], ["S2/"]) + H(['vpH_log_unstableOps_1_2'], ["S1/"]),
+     H(T(SNAP + SNAP_L), ["S1/"]) + H(T(LEAD + LEAD_HBR + LEAD_ACK), ["S3/", "S4/", "L4/no-append"]) + H(RAW[:1] + RAW[3:4] + RAW_ADV[:1], ["S2/"]) + H(ACK[3:4], ["S2/"]) + H(['vpH_log_unstableOps_2_2'], ["S1/"]),
+     BQ + BT + "MsgSnap cells: snapshot index/term symbolic, ConfState from the shape menu (10 shapes), pending unstable snapshot allowed. " + OUT,
+     "S1 a snapshot at or below the commit index, without this node, or matching the log changes nothing but (for a match) the commit index; otherwise it replaces the log, commit index and configuration exactly; S2 persistence handshake; S3 the leader sends the storage snapshot only for a compacted prefix and tracks it; S4 snapshot status handling.")
+
+prop("C10",
+     H(CONF, ["G1/", "G4/", "Q1/", "P1/"]) + H(HUP[:3] + HUP[4:7], ["G3/"]) + H(ACK[:3], ["G6/"]) + H(VRESP[:2], ["E3/"]),
+     H(CONF + ['vpH_conf_Propose_3'], ["G1/", "G4/", "Q1/", "P1/"]) + H(T(HUP), ["G3/"]) + H(ACK[:3], ["G6/"]) + H(T(VRESP), ["E3/"]),
+     BQ + BT + "Propose gate: <= 2 (3) entries per proposal, each normal / ConfChange / ConfChangeV2 with <= 2 changes, symbolic types and node ids; ApplyConfChange: <= 2 changes over ids 1..4 on shapes {simple, joint, joint+LearnersNext, self learner}, restricted to changes the Changer accepts (A-cc). " + OUT,
+     "G1 the propose gate keeps at most one unapplied configuration change and refuses enter/leave mismatches, G3 no campaign with a committed-but-unapplied change, G4 ApplyConfChange installs exactly the Changer's result (C13) and handles leader removal, G5 election and commit quorums are joint (E3, Q1 on joint shapes), G6 auto-leave is proposed exactly when the joint configuration has been applied.")
+
+prop("C11",
+     H(READ + READ_J, ["R1/", "R2/", "R3/", "R4/"]) + H(READ_SINGLETON, ["R2/", "R2b/"]) + H(step('F', 'MsgReadIndex') + step('F', 'MsgReadIndexResp') + HB[:1], ["R4/", "R5/"]),
+     H(READ + READ_J, ["R1/", "R2/", "R3/", "R4/"], policies=[0, 1]) + H(READ_SINGLETON, ["R2/", "R2b/"]) + H(T(step('F', 'MsgReadIndex') + step('F', 'MsgReadIndexResp') + HB), ["R4/", "R5/"]),
+     BQ + "Read cells: <= 2 queued unconfirmed requests, <= 1 postponed request, acks present/absent per member with symbolic positions, shapes {three voters, joint, two voters, singleton self, singleton other with self removed}. " + OUT,
+     "R1 admission (postponed until an own-term commit, queued with the commit index at receipt, position broadcast), R2 release only for the prefix confirmed by a joint majority of acknowledgements, R2b the singleton shortcut only when the sole voter is this node and it has committed in its term, R3 each answer carries its recorded index and own context, R4 resets/echo, R5 follower side.")
+
+prop("C16",
+     H(['vpH_log_limitSize_3'] + TRACK, ["C16/", "I-prog/"]) + H(SIZE[:2], ["L2/", "L4/", "L5/"]) + H(LEAD[:1] + PROP[3:], ["L4/", "L5/"]) + H(ACK[:1], ["L5/"]),
+     H(['vpH_log_limitSize_4'] + TRACK_T, ["C16/", "I-prog/"]) + H(SIZE, ["L2/", "L4/", "L5/"]) + H(T(LEAD + LEAD_HBR + LEAD_ACK + PROP[3:]), ["L2/", "L4/", "L5/"]) + H(ACK[:1], ["L5/"]),
+     BQ + BT + "limitSize: <= 3 (4) entries with symbolic term/index/type/payload length, exact protobuf size model; Inflights: size <= 3 (4), every ring shape (buffer length, start, count), symbolic contents. " + OUT,
+     "L1 limitSize returns the maximal non-empty prefix within the budget, L2 every MsgApp respects MaxSizePerMsg (one entry always allowed), L3 Inflights refines a bounded FIFO, L4 the in-flight window and pause rules, L5 the uncommitted-size quota.")
+
+prop("C18",
+     H(LOG, ["C18/", "S1/log", "M1/", "Q5/"]) + H(ACK[3:5], ["M4/"]),
+     H(LOG_T, ["C18/", "S1/log", "M1/", "Q5/"]) + H(ACK[3:], ["M4/"]),
+     "MemoryStorage: <= 2 (3) entries plus the dummy entry, appended slices <= 2 (3) entries; raftLog: storage/unstable <= 1/1 and 1/2 (2/2), optional unstable snapshot; indexes <= 2^42 in queries (indexes near 2^64 wrap in `i+1` and `int(i-offset)`: outside every claim). Outside: long operation sequences, custom Storage implementations.",
+     "One-step refinement of an abstract log by MemoryStorage (Append, Compact, CreateSnapshot, ApplySnapshot, queries), raftLog queries against the abstract view, unstable bookkeeping (stableTo, acceptInProgress, stableSnapTo, restore), and stale storage acknowledgements (ABA).",
+     assumptions=COMMON[:1] + COMMON[2:3] + ["proto.Size(Entry) is the exact protobuf wire-size formula (engine intrinsic, validated by native replay)"])
+
+prop("C20",
+     H(PROP, ["P1/", "P2/", "P3/", "L5/accept"]) + H(CONF[:2], ["P1/", "P2/"]),
+     H(T(PROP), ["P1/", "P2/", "P3/", "L5/accept"]) + H(CONF[:2] + ['vpH_conf_Propose_3'], ["P1/", "P2/"]) + H(T(LEAD + LEAD_HBR + APP + HUP), ["M3/", "N2/"]),
+     BQ + BT + "Proposals: <= 2 entries with opaque payloads of symbolic length (identity tracked). " + OUT,
+     "P1 an accepted proposal appends exactly the proposed entries (payload, type, order) once, as copies, P2 a dropped proposal changes nothing, P3 non-leaders forward the same entries once or drop.")
+
+prop("C14",
+     H(VOTE + VRESP[:4] + HUP + HB + APP[:1] + SNAP[:1] + PROP + LEAD + SMALL, ["Inv/"], panics=True) + H(RAW[:1] + RAW[3:4] + RESTART + CONF[2:] + ACK[:1] + ACK[3:4], ["Inv/"], panics=True),
+     H(T(ALL_STEP + LEAD_ACK + APP_L + SNAP_L), ["Inv/"], panics=True) + H(RAW + RAW_ADV + ['vpH_raw_Restart_3'] + CONF + ACK + TICK, ["Inv/"], panics=True) + H(LOG_T + TRACK_T, ["C18/", "C16/"], panics=True),
+     BQ + BT + OUT,
+     "No run of any cell ends in a panic (explicit panic, Logger.Panic*, index/slice out of range, nil dereference, nil-map write, failed type assertion, division by zero) and the representation invariant holds afterwards, under Inv, the V-* input assumptions, A-cc and the storage contract.")
+
+prop("C19",
+     H(DET, ["T1/"]),
+     H(DET_T, ["T1/"]) + H(['vpH_t_VisitOrder_9'], ["T1/"], policies=[0, 1, 2]),
+     BQ + "Each determinism cell builds the same symbolic state and message three times and steps it under three map-iteration policies (ascending, descending, rotated by one); shapes {three voters, joint, joint+LearnersNext}. Outside: the other 3!-3 orders of three-key maps, byte-wise comparison of long concrete runs in a separate process.",
+     "T1: for all inputs the outputs (error, hard/soft state, log, both message queues in order and field by field, progress, votes, read states, configuration) are equal under different map iteration orders (relational, decided by the solver); T2: reaching time, math/rand, crypto/rand (other than lockedRand.Intn), goroutines or channels from a RawNode entry point ends the check as a violation.")
+
+prop("C15",
+     H(LEAD_HBR[:0] + step('L', 'MsgSnapStatus'), ["S4/"]) + H(TICK[3:], ["W3/", "W6/"]) + H(RAW[:1] + RAW_ADV[:1], ["W5/"]) + H(APP[:1], ["W7/"]) + H(ACK[:1], ["G6/"]) + H(HUP[:1], ["W6/"]),
+     H(T(LEAD_HBR + step('L', 'MsgSnapStatus')), ["W1/", "S4/"]) + H(TICK, ["W3/", "W6/", "K5/"]) + H(RAW + RAW_ADV, ["W5/"]) + H(T(APP + HB), ["W7/"]) + H(ACK[:3], ["G6/"]) + H(T(HUP), ["W6/"]),
+     BQ + BT + OUT,
+     "Enabling lemmas only (single node, one step or <= 2*ET ticks): W1 a heartbeat response un-pauses replication, W3 a stalled transfer is abandoned, W4 snapshot state is left, W5 a storage acknowledgement is always requested and trims the unstable log, W6 the election timer fires, W7 a stale leader is answered, W8 auto-leave is retried. Global convergence, the bound on election timeouts and the two-voter exception are NOT decided.",
+     level="other")
+
+json.dump(specs, open('/verif/specs/checks.json', 'w'), indent=1)
+print("properties:", sorted(specs))
